@@ -16,6 +16,8 @@ VSIG = Query('value_verify_sig_args', 'harness', UB.unit_verify_sig_head, 'h_ver
              functions=['value.cpp: Value::verify_sig (argument checks up to the construction of the sighash; extract_values as oracle)'])
 HTSTR = Query('log_hashtype_text', 'harness', UB.unit_hashtype_str, 'h_hashtype_str', defines=['VERIF_ITEM_CAP=8'], unwind=104, timeout=900, object_bits=10, extra_cbmc=['--max-field-sensitivity-array-size', '120'],
               functions=['debugger/interpreter.h: hashtype_str (hash-type text of the signing log in CheckECDSASignature)'])
+JACOBI = Query('value_jacobi_args', 'harness', UB.unit_jacobi_head, 'h_jacobi_head', defines=['VERIF_STACK_W=3', 'VERIF_ITEM_CAP=34'], unwind=40, timeout=600, object_bits=10,
+               functions=['value.cpp: Value::do_jacobi_symbol (argument handling up to the first reduction; extract_values as oracle, 256-bit numbers by zero / non-zero)'])
 LISTING = Query('main_listing_line', 'harness', UB.unit_listing_line, 'h_listing_line', defines=['VERIF_ITEM_CAP=8'], unwind=12, timeout=600, object_bits=10,
                 functions=['btcdeb.cpp: main() (fragment: one line of the script listing, body of the `while (script->GetOp(...))` loop)'], bounded='pushes of at most 520 bytes (by length), opcode names of at most 40 characters')
 import re
@@ -28,7 +30,7 @@ QUERIES = (pick(C01, r'(step_push|step_unexecuted|step_3dup_6f|step_tuck_7d|step
            + pick(C17, r'(ext_substr|ext_left|ext_right|ext_cat|ext_div_shape|ext_mod_shape|ext_mul_shape|ext_lshift|ext_rshift|ext_2div)$')
            + pick(C02, r'(sig_checksig_pre|sig_checksig_tapscript|sig_multisig_1of0|sig_multisig_counts)$')
            + pick(C05, r'tap_') + pick(C07, r'(enc_data|tokenise_n7)') + pick(C09, r'(svf_table|svf_parse1_12|svf_reject_15_k1|svf_long_128|svf_long_150|svf_loop_step)$') + pick(C13, r'cs_') + pick(C03, r'(parse_input|cfg_taproot)$')
-           + [L.REWIND_ROUNDTRIP, L.REWIND_REFUSED, L.END_OF_SCRIPT, L.CTOR, L.CONTINUE, L.INSTANCE_STEP, L.EVAL, L.COMMITMENT, L.SETUP, LISTING, CFGBUF, ADDRSPK, BECH, CFGP2SH, VSIG, HTSTR, _C08.STDIN, _C08.STDIN_LONG, _C08.BATCH])
+           + [L.REWIND_ROUNDTRIP, L.REWIND_REFUSED, L.END_OF_SCRIPT, L.CTOR, L.CONTINUE, L.INSTANCE_STEP, L.EVAL, L.COMMITMENT, L.SETUP, LISTING, CFGBUF, ADDRSPK, BECH, CFGP2SH, VSIG, HTSTR, JACOBI, _C08.STDIN, _C08.STDIN_LONG, _C08.BATCH])
 _seen = set(); QUERIES = [q for q in QUERIES if not (q.name in _seen or _seen.add(q.name))]
 META = {'level': 'proof', 'trusted_base': TRUSTED,
  'assumptions': ASSUME_COMMON + [
